@@ -25,7 +25,7 @@ RULE = ("(a) redis 2 consumers x 1 message: all C(10,5)=252 orders of the 5+5 ga
 ASSUMPTIONS = ["Redis and RabbitMQ are wire-level fakes; the gate delays a client's command at the server, which is what arbitrary network latency can do",
                "redis priority polling order pinned (priorities_distribution 1/0/0) in the exhaustive enumeration so that a take is exactly five commands"]
 EVAL_COUNTER = "scenarios_judged"
-REQUIRED = ["scenarios_judged", "exhaustive_orders", "gated_random_runs", "mem_offset_runs", "multi_worker_runs", "deliveries_seen", "relay_runs", "relay_returns", "relay_finish_while_other_holds", "relay_handover_patterns", "maintenance_while_held", "finish_while_take_in_flight", "stops_while_other_worker_runs", "handover_windows_seen", "timezone_offset_runs"]
+REQUIRED = ["scenarios_judged", "exhaustive_orders", "gated_random_runs", "mem_offset_runs", "multi_worker_runs", "deliveries_seen", "relay_runs", "relay_returns", "relay_finish_while_other_holds", "relay_handover_patterns", "maintenance_while_held", "finish_while_take_in_flight", "stops_while_other_worker_runs", "handover_windows_seen", "timezone_offset_runs", "jobs_retried_without_backoff"]
 CASE_TIMEOUT = 150
 
 
@@ -55,6 +55,11 @@ def gen_cases(tier, seed):
     for kind in ("mem", "redis", "rabbit"):
         for i in range({"quick": 4, "thorough": 40}[tier]):
             cases.append({"type": "workers", "kind": kind, "k": rnd.choice([2, 3]), "n": rnd.choice([3, 8, 20]), "seed": rnd.randrange(10**6), "tl": rnd.choice([1, 3, 1000])})
+        # directed: retries without back-off, one worker (the retried copy comes back to the broker object that is still
+        # settling the old one) and two; on RabbitMQ the server hands the new copy out before it confirms the publish
+        for k_ in (1, 2):
+            for tl_ in (3, 1000):
+                cases.append({"type": "workers", "kind": kind, "k": k_, "n": 9, "seed": 2 * rnd.randrange(10**5), "tl": tl_, "dbc": "always" if tl_ == 3 else "random"})
         # one of two saturated workers is told to stop (long graceful period: nothing is cancelled) at loop steps placed in and
         # around its consume loop's pause / slot wait / un-pause hand-over; the other one carries on
         for i in range({"quick": 2, "thorough": 10}[tier]):
@@ -643,14 +648,17 @@ async def workers(loop, case, out, stats, fps):
     from rv.wl import World, fire_stop
 
     kind = case["kind"]
-    w = World(loop, kind, converter="basic", seed=case["seed"], latency=None if kind == "mem" else 0.001)
+    w = World(loop, kind, converter="basic", seed=case["seed"], latency=None if kind == "mem" else 0.001, amqp_opts={"deliver_before_confirm": case["dbc"]} if case.get("dbc") else None)
     try:
         await w.open()
         conns = [w.conn] + [(w.conn if kind == "mem" else w.rig.make_connection(f"w{i + 2}")) for i in range(case["k"] - 1)]
         for c in conns[1:]:
             if kind != "mem":
                 await c.connect()
-        r = w.router()
+        # (every second scenario: a third of the jobs fail once and are retried without any back-off - the retry goes straight
+        # back to the queue all the workers listen on)
+        retrying = case["seed"] % 2 == 0
+        r = w.router(retry_policy=(lambda retry_number=1: timedelta(0)) if retrying else None)
         w.scripted_actor(r, "act")
         await w.conn.message_broker.queue_declare("default")
         from datetime import datetime as _dt
@@ -660,7 +668,12 @@ async def workers(loop, case, out, stats, fps):
             kw = {}
             if rndw.random() < 0.4:
                 kw["deferred_until"] = _dt.now() + timedelta(seconds=rndw.choice([0.3, 1.0, 1.0, 2.2]))
-            await Job("act", id_=f"j{i:03d}", args={"script": {"do": "ok", "d": 0.01}}, use_args_bucketer=False, store_result=False, _connection=w.conn, **kw).enqueue()
+            script = {"do": "ok", "d": 0.01}
+            if retrying and i % 3 == 0:
+                script = {"by_attempt": [{"do": "raise", "d": 0.01}, {"do": "ok", "d": 0.01}]}
+                kw["retries"] = 1
+                stats["jobs_retried_without_backoff"] += 1
+            await Job("act", id_=f"j{i:03d}", args={"script": script}, use_args_bucketer=False, store_result=False, _connection=w.conn, **kw).enqueue()
         sig = __import__("signal").SIGUSR1
         ws = [Worker(routers=[r], tasks_limit=case["tl"], graceful_shutdown_time=5.0, handle_signals=[sig] if i == 0 else [], _connection=c) for i, c in enumerate(conns)]
         tasks = [loop.create_task(x.run()) for x in ws]
@@ -677,15 +690,23 @@ async def workers(loop, case, out, stats, fps):
         stats["multi_worker_runs"] += 1
         stats["scenarios_judged"] += 1
         fps.add(f"workers/{kind}/{case['k']}/{case['n']}/{case['tl']}")
-        starts = collections.Counter(e["id"] for e in w.events("actor_start"))
+        starts = collections.Counter((e["id"], e.get("attempt")) for e in w.events("actor_start"))
         stats["deliveries_seen"] += sum(starts.values())
         dt = w.rig.server.double_takes if kind == "redis" else ()
-        for id_, n in starts.items():
+        # every worker has returned: what was acknowledged is held by nobody and waits nowhere
+        acked = {e["id"] for e in w.log.events if e.get("k") == "ret" and e.get("op") == "ack" and e.get("depth") == 0}
+        snap_end = w.rig.snapshot()
+        left = sorted(i for i in acked if snap_end.get(i))
+        if left:
+            out.append(V("executed_twice", kind, "acknowledged-and-still-held", f"{left[:4]} were executed successfully and acknowledged, yet after all {case['k']} workers returned they are at {[snap_end.get(i) for i in left[:4]]} "
+                                                                                  f"(an unsettled delivery comes back as soon as its connection closes)"))
+        for (id_, _att), n in starts.items():
             if n > 1:
                 explained = any(id_ in str(name) for (_l, name, _t) in dt)
                 out.append(V("executed_twice", kind, "read-then-remove-race" if explained else f"workers/k={case['k']}", f"{id_} (successful actor) executed {n} times by {case['k']} workers on one queue"))
                 break
-        missing = [f"j{i:03d}" for i in range(case["n"]) if f"j{i:03d}" not in starts]
+        started_ids = {i for i, _a in starts}
+        missing = [f"j{i:03d}" for i in range(case["n"]) if f"j{i:03d}" not in started_ids]
         if missing:
             out.append(V("not_executed", kind, f"workers/k={case['k']}", f"{missing[:4]} never executed; state {[w.rig.snapshot().get(m) for m in missing[:4]]}"))
         for c in conns[1:]:
